@@ -32,6 +32,7 @@ import (
 	"unsafe"
 
 	"github.com/cilium/ebpf"
+	"github.com/cilium/ebpf/rlimit"
 	"github.com/daeuniverse/dae/common"
 	"github.com/daeuniverse/dae/common/consts"
 	"github.com/daeuniverse/dae/component/outbound/dialer"
@@ -582,6 +583,7 @@ func TestVerifC19(t *testing.T) {
 		// LPM set indices: the k-th mac() set gets index k; then the ring rewrite
 		b := c19Builder()
 		nsets := 40
+		ruleIdx := make([]int, 0, nsets) // trie index carried by the k-th rule
 		for k := 0; k < nsets; k++ {
 			var mac [6]byte
 			for i := range mac {
@@ -594,8 +596,12 @@ func TestVerifC19(t *testing.T) {
 				t.Fatal(err)
 			}
 			ms := last(b)
-			stream.Emit(fmt.Sprintf("setidx %d", k), hex.EncodeToString(ms.Value[:]))
-			fmt.Fprintf(flows, "matchset index %d %d %s\n", k, uint8(consts.MatchType_Mac), msHex(ms))
+			// the index the rule must carry is that of the trie the set was stored in (whatever the
+			// builder's numbering / de-duplication policy is)
+			ti := len(b.simulatedLpmTries) - 1
+			ruleIdx = append(ruleIdx, ti)
+			stream.Emit(fmt.Sprintf("setidx %d", ti), hex.EncodeToString(ms.Value[:]))
+			fmt.Fprintf(flows, "matchset index %d %d %s\n", ti, uint8(consts.MatchType_Mac), msHex(ms))
 			stats.Inc("matchset.setidx")
 			if real {
 				pfx := b.simulatedLpmTries[len(b.simulatedLpmTries)-1][0]
@@ -621,9 +627,9 @@ func TestVerifC19(t *testing.T) {
 			if old < nsets {
 				if kr, err := rewriteKernRulesWithRingLpmIndex(rules[old:old+1], start, count); err == nil {
 					out = hex.EncodeToString(kr[0].Value[:])
-					fmt.Fprintf(flows, "matchset index %d %d %s\n", (start+uint32(old))%uint32(consts.MaxMatchSetLen), uint8(consts.MatchType_Mac), msHex(kr[0]))
+					fmt.Fprintf(flows, "matchset index %d %d %s\n", (start+uint32(ruleIdx[old]))%uint32(consts.MaxMatchSetLen), uint8(consts.MatchType_Mac), msHex(kr[0]))
 				}
-				stream.Emit(fmt.Sprintf("ring %d %d %d", old, start, count), out)
+				stream.Emit(fmt.Sprintf("ring %d %d %d", ruleIdx[old], start, count), out)
 				stats.Inc("matchset.ring")
 			}
 		}
@@ -668,6 +674,10 @@ func TestVerifC19(t *testing.T) {
 			}
 		}
 	}
+
+	// ---- the port-53 constant the janitor compares key.Sport / key.Dport with (a package-level var)
+	stream.Emit("dnsport "+e, fmt.Sprint(dnsPortNetworkOrder))
+	_ = rlimit.RemoveMemlock() // kernels < 5.11 account BPF maps against RLIMIT_MEMLOCK
 
 	// ---- the WRITE SITE of outbound_connectivity_map: the real closure returned by
 	// outboundAliveChangeCallback, run against a real BPF ARRAY map with the geometry declared in
